@@ -88,7 +88,7 @@ PROPS = {
     'C10': {
         'correspondence': CORR_L1,
         'coq': ['theories/L1g/PropsC10.vo', 'theories/L1g/Inst.vo', 'theories/PoolChg/Inst.vo', 'theories/L1n/PropsL1n.vo', 'theories/L1n/Inst.vo'],
-        'profiles': [prof('gate', (80, 20), (2000, 80)), prof('pool', (40, 10), (800, 40))],
+        'profiles': [prof('gate', (80, 20), (2000, 80)), prof('pool', (40, 10), (800, 40)), prof('progs:raise_max.progs', (0, 4), (0, 20), real=True)],
         'monitors': ['C10', 'C03', 'C04'], 'liveness': True, 'panics': True,
         'trusted_base': L1_TRUST + ['a blocked operation is an actor that never moves while at its closure-run frame (frozen set B)'],
         'assumptions': ['frozen actors only at the three closure-run frames; a suspended future-based operation (queue parked, no thread occupied) is covered by the L2/wake profiles, not by this theorem'],
